@@ -26,7 +26,24 @@ ALGO = ("algo", ["debug"])
 HIST = ("hist", ["debug"])
 SHAPE = ("shape", ["debug", "release"])
 
+DEND = ("dend", ["debug"])
+
 PROPS = {
+    "C07": dict(
+        streams=[ALGO, HIST],
+        oracles=[dict(name="slot_probe", profiles=["debug", "release"])],
+        assumptions=["no-wrap theorem hypothesis n < 2^32"],
+    ),
+    "C08": dict(
+        streams=[HIST, ALGO],
+        oracles=[dict(name="reuse", profiles=["debug", "release"])],
+        assumptions=["thread independence is not expressible in the (pure) model: covered by the 16-thread differential run of the oracle only"],
+    ),
+    "C19": dict(
+        streams=[DEND],
+        oracles=[],
+        assumptions=["eq_with_epsilon is characterised with the rounded float subtraction the code performs"],
+    ),
     "C13": dict(
         streams=[SHAPE],
         oracles=[dict(name="shape_sweep", profiles=["debug", "release"])],
